@@ -9,7 +9,9 @@ classify the outcome.
   //@rewrite <label> x<N> s<D>regex<D>replacement<D>    python regex applied to the extracted text; must hit exactly N times
   //@contract                                           following lines go between signature and body
   //@loop <k>                                           following lines go between header and body of the k-th loop (textual order, 0-based)
+  //@loop-body <k>                                      following lines go right after the opening brace of the k-th loop's body
   //@before <snippet> / //@after <snippet>              following lines go before/after the (unique) body line containing <snippet>
+  //@before #<k>/<n> <snippet>                          ... the k-th of exactly n body lines containing <snippet>
   //@body-start                                         following lines go right after the opening brace of the body
   //@end
 
@@ -91,6 +93,7 @@ class Extract:
         self.rewrites = []      # (label, n, pat, repl)
         self.contract = []
         self.loops = {}         # k -> [lines]
+        self.loop_bodies = {}   # k -> [lines] inserted right after the opening brace of loop k
         self.before = []        # (snippet, [lines])
         self.after = []
         self.body_start = []
@@ -139,16 +142,21 @@ def parse_vspec(path):
             elif ex is None:
                 raise SystemExit(f"{path}:{ln}: directive outside extract block: {s}")
             elif d.startswith('rewrite '):
-                m = re.match(r'rewrite\s+(\S+)\s+x(\d+)\s+s(.)(.*)$', d)
+                m = re.match(r'rewrite\s+(\S+)\s+x(\d+|\+|\*)\s+s(.)(.*)$', d)
                 delim = m.group(3)
                 pat, repl, _ = m.group(4).split(delim)
-                ex.rewrites.append((m.group(1), int(m.group(2)), pat, repl))
+                # x<N>: exactly N hits; x+: at least one; x*: any number (uniform desugarings such as self -> slf)
+                cnt = m.group(2)
+                ex.rewrites.append((m.group(1), int(cnt) if cnt.isdigit() else cnt, pat, repl))
             elif d == 'contract':
                 sink = ex.contract
             elif d == 'noname':
                 ex.noname = True
             elif d.startswith('derive'):
                 ex.derive = tuple(d.split()[1:])
+            elif d.startswith('loop-body '):
+                k = int(d.split()[1])
+                sink = ex.loop_bodies.setdefault(k, [])
             elif d.startswith('loop '):
                 k = int(d.split()[1])
                 sink = ex.loops.setdefault(k, [])
@@ -186,6 +194,14 @@ def rust_file(rel):
     return _files[p]
 
 
+def count_ok(want, got):
+    if want == '*':
+        return True
+    if want == '+':
+        return got >= 1
+    return want == got
+
+
 def render_extract(ex, report, vacuity=False):
     rf = rust_file(ex.relpath)
     try:
@@ -216,9 +232,30 @@ def render_extract(ex, report, vacuity=False):
             text, k = re.subn(r'(?m)^(\s*)(?!pub\b)([a-z_][A-Za-z0-9_]*\s*:)', r'\1pub \2', text)
             if k:
                 rep['rewrites']['R8 pub-fields'] = k
+        if ex.kind == 'struct' and it.body_open is None and '(' in text:
+            # R8 for tuple structs: `struct P(A, B);` -> `struct P(pub A, pub B);`
+            tm = mask(text)
+            po = tm.index('(')
+            pc = match_brace(tm, po)
+            fields, depth, last = [], 0, po + 1
+            for q in range(po + 1, pc):
+                ch = tm[q]
+                if ch in '([{<':
+                    depth += 1
+                elif ch in ')]}>':
+                    depth -= 1
+                elif ch == ',' and depth == 0:
+                    fields.append(text[last:q])
+                    last = q + 1
+            fields.append(text[last:pc])
+            newf = [f if re.match(r'\s*pub\b', f) or not f.strip() else re.sub(r'^(\s*)', r'\1pub ', f, count=1) for f in fields]
+            k = sum(1 for a, b in zip(fields, newf) if a != b)
+            text = text[:po + 1] + ','.join(newf) + text[pc:]
+            if k:
+                rep['rewrites']['R8 pub-fields'] = k
         for (label, n, pat, repl) in ex.rewrites:
             text, k = re.subn(pat, repl, text, flags=re.S)
-            if k != n:
+            if not count_ok(n, k):
                 raise AnchorLost(f"{fid}: rewrite {label} expected {n} hits, got {k}")
             rep['rewrites'][label] = k
         return [Line(t, ('repo', ex.relpath, first_line + i)) for i, t in enumerate(text.split('\n'))]
@@ -233,7 +270,7 @@ def render_extract(ex, report, vacuity=False):
     for (label, n, pat, repl) in ex.rewrites:
         sig2, k1 = re.subn(pat, repl, sig, flags=re.S)
         body2, k2 = re.subn(pat, repl, body, flags=re.S)
-        if k1 + k2 != n:
+        if not count_ok(n, k1 + k2):
             raise AnchorLost(f"{fid}: rewrite {label} expected {n} hits, got {k1 + k2}")
         if body2.count('\n') != body.count('\n'):
             raise AnchorLost(f"{fid}: rewrite {label} changes the number of lines")
@@ -266,18 +303,28 @@ def render_extract(ex, report, vacuity=False):
         li = bmsk.count('\n', 0, brace_off)
         col = brace_off - (bmsk.rfind('\n', 0, brace_off) + 1)
         inline[(li, col)] = lines
+    for k, lines in ex.loop_bodies.items():
+        if k >= len(loops):
+            raise AnchorLost(f"{fid}: loop {k} not found (function has {len(loops)} loops)")
+        _, brace_off, _ = loops[k]
+        li = bmsk.count('\n', 0, brace_off)
+        col = brace_off - (bmsk.rfind('\n', 0, brace_off) + 1) + 1
+        inline[(li, col)] = lines
     rep['loops'] = len(loops)
     rep['loops_with_invariant'] = len(ex.loops)
+    def anchor(snip):
+        # `<snippet>` must match exactly one body line; `#k/n <snippet>` picks the k-th (0-based) of exactly n matches
+        m = re.match(r'#(\d+)/(\d+)\s+(.*)$', snip)
+        k, n = (int(m.group(1)), int(m.group(2))) if m else (0, 1)
+        text = m.group(3) if m else snip
+        hits = [i for i, l in enumerate(mlines) if text in l]
+        if len(hits) != n:
+            raise AnchorLost(f"{fid}: anchor `{text}` matches {len(hits)} lines, expected {n}")
+        return hits[k]
     for (snip, lines) in ex.before:
-        hits = [i for i, l in enumerate(mlines) if snip in l]
-        if len(hits) != 1:
-            raise AnchorLost(f"{fid}: anchor `{snip}` matches {len(hits)} lines")
-        inserts_before.setdefault(hits[0], []).extend(lines)
+        inserts_before.setdefault(anchor(snip), []).extend(lines)
     for (snip, lines) in ex.after:
-        hits = [i for i, l in enumerate(mlines) if snip in l]
-        if len(hits) != 1:
-            raise AnchorLost(f"{fid}: anchor `{snip}` matches {len(hits)} lines")
-        inserts_after.setdefault(hits[0], []).extend(lines)
+        inserts_after.setdefault(anchor(snip), []).extend(lines)
 
     out = []
     for i, t in enumerate(sig.split('\n')):
